@@ -413,7 +413,7 @@ R20.6 exit status: ErrNoNewVersion maps to the distinct non-zero code, any other
 				if call, ok := n.(*ast.CallExpr); ok && len(call.Args) == 2 {
 					if fn := calleeFunc(info, call); fn != nil && fn.Name() == "createTag" {
 						got = ftg.E(call.Args[1])
-						okArg = got == `fmt.Sprintf("v%s", github.com/Masterminds/semver/v3.NewVersion(RECV.Version)#0.String<(github.com/Masterminds/semver/v3.Version).String>())`
+						okArg = got == `"v" + github.com/Masterminds/semver/v3.NewVersion(RECV.Version)#0.String<(github.com/Masterminds/semver/v3.Version).String>()`
 					}
 				}
 				return true
